@@ -15,7 +15,7 @@ import ast
 from ..dataflow import all_def_values
 from ..effects import Unknown, ceval
 from ..model import AnalysisError, ClassInfo, FuncInfo, dotted, norm_stmt, unparse, walk_no_nested
-from .common import QUICK, calls_in, kwarg, parents_map
+from .common import QUICK, calls_in, kwarg, parents_map, named_args
 
 EXPLANATION = (
     "Static writer/reader agreement on /repo's current source. For every to_hdf/from_hdf pair the dataset and group "
@@ -323,7 +323,7 @@ def dict_protocol(prog, res, rule: str, *, only_modify: bool = False) -> int:
             res.ok(rule, res.site(md, "modify -> from_dict"), f"on all {len(handed)} path(s) the dictionary is consumed by from_dict without unaccepted / missing keys and covers what to_dict stores")
         # modify delegating to the generic base implementation: to_dict keys merged with the given keywords
         for call in generic:
-            kws = {k.arg for k in call.keywords if k.arg}
+            kws = {n_ for n_, _v in named_args(call)}
             for p, d in arms:
                 n += 1
                 merged = ast.Dict(keys=list(d.keys) + [ast.Constant(value=k) for k in sorted(kws) if k not in {x.value for x in d.keys}], values=list(d.values) + [ast.Name(id=k, ctx=ast.Load()) for k in sorted(kws) if k not in {x.value for x in d.keys}])
